@@ -25,6 +25,14 @@ Clauses of the statement -> subchecks
     C05.clear                attr.clear() -> every index reads the default
     C05.as_array             array export equals the model, same shape for sparse and dense
     C05.recreate             delete_attribute + create_attribute after growth gives an aligned all-default attribute
+    C05.defaults.signature   the parameter order and the default of every optional parameter of create_attribute, Attribute,
+                             ArrayAttribute, DataContainer, CornerDataContainer, Type.default_value are the documented ones
+    C05.defaults.omitted     an option left out (each alone next to every combination of the others; all defaulted ones
+                             together) gives the object described by the documented default
+    C05.defaults.keyword     every option (and every required argument) passed by its documented name
+    C05.defaults.positional  options passed by position in the documented order (all; every prefix + keywords / nothing)
+    C05.last_written         (str:len==32) a string of exactly the documented cell width, 32 characters, is kept whole
+    C05.index_forms          a numpy integer index addresses the same entry as the python int (write, read, dense bounds)
 
 A storage whose real state has left its model because of a reported violation is *dropped* from the
 experiment (deleted from the container; its model becomes None) and the exploration continues with the other
@@ -44,7 +52,14 @@ RULE = ("explicit-state BFS over all histories (set valid / set invalid / set nu
         "the five value types x arity {1,2} x default {implicit,custom} x {DataContainer, CornerDataContainer}; one "
         "sparse and one dense attribute with identical parameters live in the same container and are compared "
         "with a reference list of k-tuples each; a case is one distinct (canonical dump of the real container, "
-        "models, written-flags) state; non-trivial = at least one entry written or the container grown")
+        "models, written-flags) state; non-trivial = at least one entry written or the container grown. "
+        "Call forms: every public entry point with optional parameters (create_attribute of both containers, the two "
+        "attribute constructors, the two container constructors, Type.default_value) is called with every assignment of "
+        "{documented default, another value} to its options, written in every form (all by keyword, each defaulted option "
+        "omitted alone, all defaulted options omitted, all by position, every positional prefix followed by keywords or by "
+        "nothing); the object obtained is probed (storage class, rows, reads, one write, growth by one element, export) "
+        "against the description computed from the pinned table of documented defaults; a case is one (entry point, "
+        "type, size, assignment, form)")
 ASSUMPTIONS = [
     "per-type value alphabets of 2 exact values, every narrower type, every non-castable python type, None, "
     "wrong arities, mixed-component vectors, one numpy-typed value (agreement only); see alphabet() in the driver",
@@ -57,14 +72,23 @@ ASSUMPTIONS = [
     "exception classes of rejections are not compared (the statement fixes only OutOfBoundsError for the dense "
     "bounds check); numpy-typed values are only required to be treated alike by both storages",
     "after a reported violation the storage concerned is dropped and the search continues with the other one",
+    "documented defaults and parameter order = table DOC_SIGNATURES in the driver, copied from the signatures and "
+    "docstrings of the unchanged tree (never read from the library at run time); a library signature that differs from "
+    "it is reported as a violation (C05.defaults.signature). `size` of create_attribute is only ever given the size of "
+    "the container (any other value contradicts the alignment the statement demands); a CornerDataContainer is given "
+    "both of its lists or none; re-creating an attribute under an existing name is not exercised (the documentation of "
+    "config.display_duplicate_attribute_warning and of create_attribute disagree on what it does)",
+    "a multi-option omission (or a positional prefix with omitted tail) that fails is not reported again when one of the "
+    "omitted options already fails when omitted alone with the same values of the others (same defect, culprit known)",
 ]
 BOUNDS = {
     "quick": "80 configurations (2 containers x 5 types x arity 1,2 x implicit/custom default x size 0,2): all histories "
              "of <= 3 events, <= 4 events for DataContainer of size 2; 2 long-string configurations <= 3 events; "
-             "container growth capped at n0+2",
+             "container growth capped at n0+2; call forms: 5 types x 7 entry points x container sizes 0,3 x every "
+             "assignment x every form (3561 calls); numpy integer indices of 4 types x 5 types x 2 storages x arity 1,2",
     "thorough": "the same 80 configurations: all histories of <= 5 events, growth capped at n0+3; 20 configurations "
                 "(DataContainer, size 2) with the reduced event menu: <= 6 events, growth capped at 4; 2 long-string "
-                "configurations <= 4 events",
+                "configurations <= 4 events; call forms as quick with container sizes 0,1,3,4",
 }
 
 PYT = {"bool": bool, "int": int, "float": float, "complex": complex, "str": str}
@@ -168,6 +192,10 @@ def tasks(tier):
     # most expensive first, so that the pool stays balanced (results are merged in this fixed order)
     weight = {"float": 0, "int": 1, "str": 2, "bool": 3, "complex": 4}
     out.sort(key=lambda t: (-t["depth"], t["menu"] != "full", weight[t["type"]], -t["n0"]))
+    # documented defaults and call forms (cheap; after the histories so that the pool order of those is unchanged)
+    out.append({"kind": "signatures"})
+    for T in TYPES:
+        out.append({"kind": "defaults", "type": T, "sizes": {"quick": [0, 3], "thorough": [0, 1, 3, 4]}[tier]})
     return out
 
 
@@ -917,8 +945,563 @@ def _is_default(v, dflt, k):
 
 
 # ------------------------------------------------------------------------------------------------
+# documented defaults and call forms
+#
+# The histories above pass every option of create_attribute explicitly, so the value a keyword takes when it is LEFT OUT,
+# and the position an option has when it is passed WITHOUT its name, are not seen by them.  Here every public entry point
+# of the property that has optional parameters is called in every form (every option omitted alone next to every
+# combination of the others, all defaulted options omitted together, everything by keyword, everything by position,
+# every positional prefix followed by keywords or by nothing) and the object obtained is compared with the expectation
+# computed from the table below - the DOCUMENTED parameter order and defaults, copied from the signatures / docstrings of
+# the unchanged tree and never read from the library at run time.
+REQUIRED = "<required>"
+_CREATE = [("name", REQUIRED), ("data_type", REQUIRED), ("elem_size", 1), ("dense", False), ("default_value", None),
+           ("size", None)]
+DOC_SIGNATURES = {
+    "DataContainer.create_attribute": _CREATE,
+    "CornerDataContainer.create_attribute": _CREATE,
+    "Attribute": [("elem_type", REQUIRED), ("elem_size", 1), ("default_value", None)],
+    "ArrayAttribute": [("elem_type", REQUIRED), ("n_elem", REQUIRED), ("elem_size", 1), ("default_value", None)],
+    "DataContainer": [("data", None), ("attributes", None), ("id", "")],
+    "CornerDataContainer": [("elem", None), ("adj", None), ("attributes", None), ("id", "")],
+    "Attribute.Type.default_value": [("n", 1)],
+}
+
+
+def _required(callee):
+    return [p for p, d in DOC_SIGNATURES[callee] if isinstance(d, str) and d == REQUIRED]
+
+
+def _optional(callee):
+    return [(p, d) for p, d in DOC_SIGNATURES[callee] if not (isinstance(d, str) and d == REQUIRED)]
+
+
+def _resolve(callee):
+    """the function object behind a table entry (its first parameter, self, is not part of the table)"""
+    from mouette.mesh.data_container import DataContainer, CornerDataContainer
+    from mouette.mesh.mesh_attributes import Attribute, ArrayAttribute
+    return {"DataContainer.create_attribute": lambda: DataContainer.create_attribute,
+            "CornerDataContainer.create_attribute": lambda: CornerDataContainer.create_attribute,
+            "Attribute": lambda: Attribute.__init__,
+            "ArrayAttribute": lambda: ArrayAttribute.__init__,
+            "DataContainer": lambda: DataContainer.__init__,
+            "CornerDataContainer": lambda: CornerDataContainer.__init__,
+            "Attribute.Type.default_value": lambda: Attribute.Type.default_value}[callee]()
+
+
+def _public_name(callee):
+    """Two table entries served by one function object (a method inherited from a common base) are one callee: a defect
+    in it is reported once, under the first entry."""
+    o = call(_resolve, callee)
+    if o.ok:
+        for other in DOC_SIGNATURES:
+            if other == callee:
+                break
+            o2 = call(_resolve, other)
+            if o2.ok and o2.value is o.value:
+                return other
+    return callee
+
+
+def _check_signatures(rep: Report):
+    """The library's signatures against the pinned table: a default that differs from the documented one, or a documented
+    parameter that sits at another position, IS the defect (cheap guard next to the behavioural sweep of the call forms)."""
+    import inspect
+    seen = []
+    for callee, doc in DOC_SIGNATURES.items():
+        for p, _ in doc:
+            rep.flag(f"defaults:signature:{callee}.{p}")
+        rep.transitions += 1
+        o = call(lambda: (_resolve(callee), list(inspect.signature(_resolve(callee)).parameters.values())))
+        if not o.ok:
+            rep.violation("C05.defaults.signature", callee, "raises:" + o.exc, "signature", {"msg": o.msg})
+            continue
+        fn, params = o.value
+        if any(fn is g for g in seen):
+            continue                                  # the same function object as an entry already compared
+        seen.append(fn)
+        params = params[1:]                           # self
+        got = [(q.name, REQUIRED if q.default is inspect.Parameter.empty else q.default) for q in params]
+        names = [g[0] for g in got]
+        det = {"documented": [[a, repr(b)] for a, b in doc], "library": [[a, repr(b)] for a, b in got]}
+        for i, (p, d) in enumerate(doc):
+            rep.evaluations += 1
+            if p not in names:
+                rep.violation("C05.defaults.signature", callee, "mismatch:parameter_missing", p, det)
+                continue
+            if names.index(p) != i:
+                rep.violation("C05.defaults.signature", callee, "mismatch:parameter_order", p, det)
+            gp = params[names.index(p)]
+            if gp.kind is not inspect.Parameter.POSITIONAL_OR_KEYWORD:
+                rep.violation("C05.defaults.signature", callee, "mismatch:parameter_kind", p, det)
+            gd = got[names.index(p)][1]
+            if type(gd) is not type(d) or gd != d:
+                rep.violation("C05.defaults.signature", callee, "mismatch:default_value", p, det)
+        for p, d in got[len(doc):]:
+            if isinstance(d, str) and d == REQUIRED:  # a new parameter without default breaks every documented call
+                rep.violation("C05.defaults.signature", callee, "mismatch:new_required_parameter", p, det)
+    rep.traces += 1
+
+
+def _meanings(k):
+    """every assignment of 'd' (the documented default) / 'a' (another value) to k options"""
+    out = [()]
+    for _ in range(k):
+        out = [m + (x,) for m in out for x in ("d", "a")]
+    return out
+
+
+def _forms(k, m):
+    """Ways of writing the call with meaning m: (style, omitted, positional, keyword) as index tuples.  Only options whose
+    value is the documented default may be omitted.  The single omissions come before the joint one."""
+    dflt = [i for i in range(k) if m[i] == "d"]
+    forms = [("keyword", (), (), tuple(range(k)))]
+    for i in dflt:
+        forms.append(("omitted", (i,), (), tuple(j for j in range(k) if j != i)))
+    if len(dflt) >= 2:
+        forms.append(("omitted", tuple(dflt), (), tuple(j for j in range(k) if m[j] == "a")))
+    forms.append(("positional", (), tuple(range(k)), ()))
+    for t in range(1, k):
+        forms.append(("positional", (), tuple(range(t)), tuple(range(t, k))))
+    t = k
+    while t > 0 and m[t - 1] == "d":
+        t -= 1
+    if 0 < t < k:                                    # (t == 0 is the call with everything omitted, listed above)
+        forms.append(("positional", tuple(range(t, k)), tuple(range(t)), ()))
+    return forms
+
+
+def _sweep(rep: Report, callee, ctx, values, valid, spec, attempt):
+    """Every call form of `callee` (table entry) in the context `ctx` (JSON-able, part of the detail).
+    values(m) -> fresh list of the option values of meaning m; valid(m) -> bool; spec(m) -> hashable expectation (for
+    the vacuity guard only); attempt(m, form, vals) -> None | (kind, detail)."""
+    names = [p for p, _ in _optional(callee)]
+    k = len(names)
+    pub = _public_name(callee)
+    ms = [m for m in _meanings(k) if valid(m)]
+    for i in range(k):
+        if any(m[i] == "d" and m2[i] == "a" and spec(m) != spec(m2) for m in ms for m2 in ms):
+            rep.flag(f"defaults:discriminating:{callee}.{names[i]}")
+    for m in ms:
+        alone = set()
+        rep.states += 1                               # one object described by the table per meaning
+        for form in _forms(k, m):
+            style, om, pos, kw = form
+            rep.traces += 1
+            rep.transitions += 1
+            rep.case(("defaults", callee, repr(ctx), m, form))
+            res = attempt(m, form, values(m))
+            for i in om:
+                rep.flag(f"defaults:omitted:{callee}.{names[i]}")
+            for i in pos:
+                rep.flag(f"defaults:positional:{callee}.{names[i]}")
+            for i in kw:
+                rep.flag(f"defaults:keyword:{callee}.{names[i]}")
+            rep.outcome("defaults:" + style, "as_documented" if res is None else res[0])
+            if res is None:
+                rep.count("defaults_forms_ok")
+                continue
+            if style == "omitted" and len(om) == 1:
+                alone.add(om[0])
+            elif om and any(i in alone for i in om):
+                rep.count("defaults_explained_by_single_omission")     # the same defect, already reported with its culprit
+                continue
+            kind, detail = res
+            shown = values(m)
+            rep.violation("C05.defaults." + style, pub, kind,
+                          {"omitted": "omitted=" + "+".join(names[i] for i in om), "keyword": "all_by_keyword",
+                           "positional": "by_position"}[style],
+                          dict(detail, context=ctx, entry_point=callee,
+                               meaning={names[i]: ("documented default " if m[i] == "d" else "") + repr(shown[i]) for i in range(k)},
+                               omitted=[names[i] for i in om], positional=[names[i] for i in pos],
+                               keyword=[names[i] for i in kw]))
+
+
+def _invoke(fn, req, req_names, names, vals, form):
+    """required arguments by keyword in the keyword / omitted styles, by position as soon as an option is positional"""
+    style, om, pos, kw = form
+    kwargs = {names[i]: vals[i] for i in kw}
+    if pos:
+        return call(fn, *(list(req) + [vals[i] for i in pos]), **kwargs)
+    kwargs.update(dict(zip(req_names, req)))
+    return call(fn, **kwargs)
+
+
+def _probe_attr(rep: Report, a, n, T, k, dense, dv, c=None, corner=False, name=None):
+    """The attribute `a`, said to be a fresh `dense`/sparse attribute of type T, arity k and default dv over n elements,
+    against that description: storage class, reads, bounds, one write, growth through its container (if any), export.
+    -> None | (kind, detail) for the first difference."""
+    import numpy as np
+    dflt = (dv,) * k
+    want_cls = "ArrayAttribute" if dense else "Attribute"
+    rep.evaluations += 1
+    if type(a).__name__ != want_cls:
+        return ("mismatch:storage", {"got": type(a).__name__, "want": want_cls})
+    model = [dflt] * n
+    written = set()
+
+    def look(target, stage):
+        nn = len(model)
+        if dense:
+            rep.evaluations += 2
+            o = call(len, target)
+            if not o.ok or o.value != nn:
+                return ("mismatch:rows", {"stage": stage, "len(attribute)": repr(o), "container_size": nn})
+            o = call(target.__getitem__, nn)
+            if o.ok or o.exc != "OutOfBoundsError":
+                return ("mismatch:rows", {"stage": stage, "read_at_container_size": repr(o), "container_size": nn})
+        for i in range(nn):
+            rep.evaluations += 1
+            o = call(target.__getitem__, i)
+            if not o.ok:
+                return ("mismatch:rows" if o.exc == "OutOfBoundsError" else "raises:" + o.exc,
+                        {"stage": stage, "index": i, "container_size": nn, "msg": o.msg})
+            why = cmp_read(o.value, model[i], k)
+            if why is not None:
+                kind = "mismatch:arity" if why == "mismatch:shape" else ("mismatch:value" if i in written else "mismatch:default")
+                return (kind, {"stage": stage, "index": i, "got": repr(o.value), "want": list(model[i])})
+        rep.evaluations += 1
+        o = call(target.as_array, nn)
+        if not o.ok:
+            return ("raises:" + o.exc, {"stage": stage, "op": "as_array", "msg": o.msg})
+        arr = np.asarray(o.value)
+        flat = arr.reshape(-1).tolist()
+        want = [x for row in model for x in row]
+        if len(flat) != len(want) or (nn >= 2 and arr.shape != ((nn,) if k == 1 else (nn, k))):
+            return ("mismatch:arity", {"stage": stage, "op": "as_array", "got_shape": list(arr.shape), "container_size": nn, "arity": k})
+        for j, (p, q) in enumerate(zip(flat, want)):
+            if not eq(p, q):
+                return ("mismatch:value" if j // k in written else "mismatch:default",
+                        {"stage": stage, "op": "as_array", "got": flat, "want": want})
+        if dense:
+            rep.evaluations += 1
+            o2 = call(target.as_array)               # the size is optional for the dense export
+            if not o2.ok:
+                return ("raises:" + o2.exc, {"stage": stage, "op": "as_array()", "msg": o2.msg})
+            arr2 = np.asarray(o2.value)
+            if arr2.shape != arr.shape or arr2.reshape(-1).tolist() != flat:
+                return ("mismatch:export_with_and_without_size", {"stage": stage, "with": flat, "without": arr2.reshape(-1).tolist()})
+        return None
+
+    bad = look(a, "fresh")
+    if bad:
+        return bad
+    if n >= 2:
+        e1, e2 = EXACT[T]
+        v = e1 if k == 1 else [e1, e2]
+        o = call(a.__setitem__, 1, v)
+        if not o.ok:
+            return ("mismatch:arity" if o.exc == "InvalidSizeError" else "raises:" + o.exc,
+                    {"stage": "write", "index": 1, "value": repr(v), "msg": o.msg})
+        model[1] = pyval(v, k)
+        written.add(1)
+    target = a
+    if c is not None:
+        o = call(c.append, 5, 7) if corner else call(c.append, 5)
+        if not o.ok:
+            return ("raises:" + o.exc, {"stage": "append", "msg": o.msg})
+        model.append(dflt)
+        o = call(c.get_attribute, name)
+        if not o.ok:
+            return ("raises:" + o.exc, {"stage": "get_attribute", "msg": o.msg})
+        target = o.value                              # written through the handle returned, read through the container
+    return look(target, "after_write_and_append" if c is not None else "after_write")
+
+
+def _defaults_task(task, rep: Report):
+    from mouette.mesh.data_container import DataContainer, CornerDataContainer
+    from mouette.mesh.mesh_attributes import Attribute, ArrayAttribute
+    T = task["type"]
+    PT = PYT[T]
+    sizes = task["sizes"]
+
+    # -- create_attribute(name, data_type, elem_size=1, dense=False, default_value=None, size=None), both containers
+    for cname in ("DataContainer", "CornerDataContainer"):
+        callee = cname + ".create_attribute"
+        names = [p for p, _ in _optional(callee)]
+        corner = cname == "CornerDataContainer"
+        for n in sizes:
+            def make():
+                return CornerDataContainer([5] * n, [7] * n, id="corners") if corner else DataContainer([5] * n, id="elems")
+
+            def values(m):
+                return [1 if m[0] == "d" else 2, m[1] == "a", None if m[2] == "d" else CUSTOM[T], None if m[3] == "d" else n]
+
+            def spec(m):
+                return (1 if m[0] == "d" else 2, m[1] == "a", m[2] == "a")
+
+            def attempt(m, form, vals):
+                c = make()
+                o = _invoke(c.create_attribute, ["q", PT], _required(callee), names, vals, form)
+                if not o.ok:
+                    return ("raises:" + o.exc, {"msg": o.msg})
+                k, dense, custom = spec(m)
+                return _probe_attr(rep, o.value, n, T, k, dense, CUSTOM[T] if custom else DEFAULT[T], c=c, corner=corner, name="q")
+
+            _sweep(rep, callee, {"type": T, "container": cname, "container_size": n}, values, lambda m: True, spec, attempt)
+            rep.flag(f"defaults:size_omitted_at:{callee}:{n}")
+    # a changed default of `size` shows as soon as it differs from the size of the container: two different sizes
+    if len(set(sizes)) >= 2:
+        for cname in ("DataContainer", "CornerDataContainer"):
+            rep.flag(f"defaults:discriminating:{cname}.create_attribute.size")
+
+    # -- Attribute(elem_type, elem_size=1, default_value=None) / ArrayAttribute(elem_type, n_elem, elem_size=1, default_value=None)
+    for callee, cls, dense in (("Attribute", Attribute, False), ("ArrayAttribute", ArrayAttribute, True)):
+        names = [p for p, _ in _optional(callee)]
+        for n in sizes:
+            def values(m):
+                return [1 if m[0] == "d" else 2, None if m[1] == "d" else CUSTOM[T]]
+
+            def spec(m):
+                return (1 if m[0] == "d" else 2, m[1] == "a")
+
+            def attempt(m, form, vals):
+                o = _invoke(cls, [PT, n] if dense else [PT], _required(callee), names, vals, form)
+                if not o.ok:
+                    return ("raises:" + o.exc, {"msg": o.msg})
+                k, custom = spec(m)
+                return _probe_attr(rep, o.value, n, T, k, dense, CUSTOM[T] if custom else DEFAULT[T])
+
+            _sweep(rep, callee, {"type": T, "n_elem": n}, values, lambda m: True, spec, attempt)
+
+    # -- Attribute.Type.default_value(n=1)
+    def values(m):
+        return [1 if m[0] == "d" else 2]
+
+    def attempt(m, form, vals):
+        o = call(lambda: Attribute.Type(PT))
+        if not o.ok:
+            return ("raises:" + o.exc, {"msg": o.msg})
+        o = _invoke(o.value.default_value, [], [], ["n"], vals, form)
+        if not o.ok:
+            return ("raises:" + o.exc, {"msg": o.msg})
+        k = vals[0]
+        rep.evaluations += 1
+        why = cmp_read(o.value, (DEFAULT[T],) * k, k)
+        if why is not None:
+            return ("mismatch:arity" if why == "mismatch:shape" else "mismatch:default",
+                    {"got": repr(o.value), "want": [DEFAULT[T]] * k})
+        return None
+
+    _sweep(rep, "Attribute.Type.default_value", {"type": T}, values, lambda m: True, lambda m: m, attempt)
+    _index_forms(rep, T)
+    if T == "str":
+        _string_limit(rep)
+
+    # -- DataContainer(data=None, attributes=None, id="") / CornerDataContainer(elem=None, adj=None, attributes=None, id="")
+    for callee, cls, corner in (("DataContainer", DataContainer, False), ("CornerDataContainer", CornerDataContainer, True)):
+        names = [p for p, _ in _optional(callee)]
+        nd = 2 if corner else 1                       # number of element lists
+
+        def values(m):
+            vals = [None if m[0] == "d" else [5, 6, 5]]
+            if corner:
+                vals.append(None if m[1] == "d" else [7, 8, 9])
+            vals.append(None if m[nd] == "d" else {"x": ArrayAttribute(PT, 3 if m[0] == "a" else 0, elem_size=1, default_value=CUSTOM[T])})
+            vals.append("" if m[nd + 1] == "d" else "verts")
+            return vals
+
+        def valid(m):
+            return (not corner) or m[0] == m[1]       # a corner container is given both of its lists or none
+
+        def attempt(m, form, vals):
+            o = _invoke(cls, [], [], names, vals, form)
+            if not o.ok:
+                return ("raises:" + o.exc, {"msg": o.msg})
+            c = o.value
+            n = 3 if m[0] == "a" else 0
+            rep.evaluations += 4
+            o = call(lambda: (len(c), c.size, [c[i] for i in range(n)], list(c)))
+            if not o.ok:
+                return ("raises:" + o.exc, {"op": "len/size/getitem/iter", "msg": o.msg})
+            want_el = [5, 6, 5][:n]
+            if o.value != (n, n, want_el, want_el):
+                return ("mismatch:elements", {"got": repr(o.value), "want": repr((n, n, want_el, want_el))})
+            if corner:
+                o = call(lambda: ([c.element(i) for i in range(n)], [c.adj(i) for i in range(n)]))
+                if not o.ok:
+                    return ("raises:" + o.exc, {"op": "element/adj", "msg": o.msg})
+                if o.value != (want_el, [7, 8, 9][:n]):
+                    return ("mismatch:elements", {"got": repr(o.value), "want": repr((want_el, [7, 8, 9][:n]))})
+            o = call(lambda: sorted(c.attributes))
+            want_at = ["x"] if m[nd] == "a" else []
+            if not o.ok or o.value != want_at:
+                return ("mismatch:attributes", {"got": repr(o), "want": want_at})
+            want_id = "verts" if m[nd + 1] == "a" else ""
+            o = call(lambda: c.id)
+            if not o.ok or type(o.value) is not str or o.value != want_id:
+                return ("mismatch:id", {"got": repr(o), "want": want_id})
+            # what one instance is given by default is its own: a second instance built the same way stays as it was
+            o = _invoke(cls, [], [], names, values(m), form)
+            if not o.ok:
+                return ("raises:" + o.exc, {"msg": o.msg, "instance": "second"})
+            c2 = o.value
+            if m[nd] == "a":
+                bad = _probe_given(rep, c, n, T, corner)
+                if bad:
+                    return bad
+            o = call(c.create_attribute, name="q", data_type=PT, elem_size=1, dense=True, default_value=CUSTOM[T], size=n)
+            if not o.ok:
+                return ("raises:" + o.exc, {"op": "create_attribute", "msg": o.msg})
+            bad = _probe_attr(rep, o.value, n, T, 1, True, CUSTOM[T], c=c, corner=corner, name="q")
+            if bad:
+                return (bad[0], dict(bad[1], op="create_attribute on the container built"))
+            rep.evaluations += 2
+            o = call(lambda: (len(c2), sorted(c2.attributes)))
+            if not o.ok or o.value != (n, want_at):
+                return ("side_effect:shared_between_instances", {"second_instance_now": repr(o), "want": repr((n, want_at))})
+            return None
+
+        _sweep(rep, callee, {"type": T}, values, valid, lambda m: m, attempt)
+
+
+def _index_forms(rep: Report, T):
+    """An element index is an integer: a numpy integer (what iterating over an index array yields) addresses the same
+    entry as the python int of the same value, for writes, reads and the dense bounds check."""
+    import numpy as np
+    from mouette.mesh.data_container import DataContainer
+    n = 3
+    for dense in (False, True):
+        for k in (1, 2):
+            for ityp in (np.int64, np.int32, np.intp, np.uint8):
+                rep.traces += 1
+                rep.flag("index_forms:" + ("dense" if dense else "sparse"))
+                cls = "ArrayAttribute" if dense else "Attribute"
+                icls = "numpy_integer_index"
+                c = DataContainer([5] * n, id="elems")
+                o = call(c.create_attribute, "q", PYT[T], k, dense=dense, default_value=CUSTOM[T])
+                if not o.ok:
+                    continue                          # (creation is the matter of the histories)
+                a = o.value
+                e1, e2 = EXACT[T]
+                v = e1 if k == 1 else [e1, e2]
+                w = DELTA[T] if k == 1 else [DELTA[T], DELTA[T]]
+                det = {"type": T, "arity": k, "index_type": ityp.__name__, "container_size": n}
+                rep.transitions += 2
+                o = call(a.__setitem__, ityp(1), v)
+                if not o.ok:
+                    rep.violation("C05.index_forms", cls + ".__setitem__", "raises:" + o.exc, icls, dict(det, msg=o.msg))
+                    continue
+                o = call(a.__setitem__, 2, w)
+                if not o.ok:
+                    continue
+                model = [(CUSTOM[T],) * k, pyval(v, k), pyval(w, k)]
+                for i in range(n):
+                    for idx, how in ((i, "written_by_numpy_index_read_by_int"), (ityp(i), "read_by_numpy_index")):
+                        rep.evaluations += 1
+                        o = call(a.__getitem__, idx)
+                        if not o.ok:
+                            rep.violation("C05.index_forms", cls + ".__getitem__", "raises:" + o.exc, icls,
+                                          dict(det, index=i, how=how, msg=o.msg))
+                        elif cmp_read(o.value, model[i], k) is not None:
+                            rep.violation("C05.index_forms", cls + ".__getitem__", "mismatch:value", icls,
+                                          dict(det, index=i, how=how, got=repr(o.value), want=list(model[i])))
+                if dense:
+                    for idx in (ityp(n), np.int64(-1)):
+                        rep.evaluations += 1
+                        o = call(a.__getitem__, idx)
+                        if o.ok or o.exc != "OutOfBoundsError":
+                            rep.violation("C05.dense.out_of_bounds", "ArrayAttribute.__getitem__/__setitem__",
+                                          "mismatch:answered" if o.ok else "raises:" + o.exc,
+                                          "index==n" if int(idx) == n else "index<0", dict(det, index=int(idx), how="numpy integer index"))
+                        else:
+                            rep.count("index_forms_oob_reported")
+                rep.count("index_forms_ok")
+
+
+def _string_limit(rep: Report):
+    """String cells are documented to hold 32 characters: a value of exactly 32 characters (the alphabets of the histories
+    have 1 and 33) is read back and exported whole, by both storages, also after growth and next to shorter values."""
+    import numpy as np
+    from mouette.mesh.data_container import DataContainer
+    full = "a" * 31 + "b"
+    for dense in (False, True):
+        for k in (1, 2):
+            for dv in (None, "z"):
+                rep.traces += 1
+                cls = "ArrayAttribute" if dense else "Attribute"
+                c = DataContainer([5] * 2, id="elems")
+                o = call(c.create_attribute, "q", str, k, dense=dense, default_value=dv)
+                if not o.ok:
+                    continue
+                a = o.value
+                v = full if k == 1 else [full, "x"]
+                rep.transitions += 2
+                if not (call(a.__setitem__, 0, v).ok and call(c.append, 5).ok):
+                    continue                          # (acceptance and growth are the matter of the histories)
+                d = "" if dv is None else dv
+                model = [pyval(v, k), (d,) * k, (d,) * k]
+                det = {"arity": k, "default": dv, "written": repr(v)}
+                rep.count("string_limit_probed")
+                for i in range(3):
+                    rep.evaluations += 1
+                    o = call(a.__getitem__, i)
+                    if o.ok and cmp_read(o.value, model[i], k) is not None:
+                        rep.violation("C05.last_written", cls + ".__setitem__", "mismatch:truncated" if i == 0 else "mismatch:value",
+                                      "str:len==32", dict(det, index=i, got=repr(o.value), want=list(model[i])))
+                rep.evaluations += 1
+                o = call(a.as_array, 3)
+                if o.ok:
+                    flat = np.asarray(o.value).reshape(-1).tolist()
+                    want = [x for row in model for x in row]
+                    if flat != want:
+                        rep.violation("C05.last_written", cls + ".as_array", "mismatch:truncated" if flat[1:] == want[1:] else "mismatch:value",
+                                      "str:len==32", dict(det, got=flat, want=want))
+                    else:
+                        rep.count("string_limit_ok")
+
+
+def _probe_given(rep: Report, c, n, T, corner):
+    """the dense attribute 'x' handed to the constructor in `attributes` is the container's attribute 'x'"""
+    o = call(c.get_attribute, "x")
+    if not o.ok:
+        return ("raises:" + o.exc, {"op": "get_attribute of an attribute given to the constructor", "msg": o.msg})
+    a = o.value
+    for i in range(n):
+        rep.evaluations += 1
+        o = call(a.__getitem__, i)
+        if not o.ok:
+            return ("raises:" + o.exc, {"op": "read of an attribute given to the constructor", "msg": o.msg})
+        if cmp_read(o.value, (CUSTOM[T],), 1) is not None:
+            return ("mismatch:attributes", {"index": i, "got": repr(o.value), "want": CUSTOM[T]})
+    return None
+
+
+def _defaults_guards(rep: Report):
+    """every entry of the table of documented defaults was exercised in every way, on an input where its value matters"""
+    fails = []
+    for callee in DOC_SIGNATURES:
+        for p, d in DOC_SIGNATURES[callee]:
+            want = ["signature"] + ([] if isinstance(d, str) and d == REQUIRED else ["omitted", "keyword", "positional", "discriminating"])
+            for what in want:
+                if f"defaults:{what}:{callee}.{p}" not in rep.flags:
+                    fails.append(f"documented default not exercised: {what} {callee}.{p}")
+    for style in ("keyword", "omitted", "positional"):
+        if "as_documented" not in rep.outcomes.get("defaults:" + style, ()):
+            fails.append(f"call forms of style {style}: none behaved as documented")
+    for f in ("index_forms:sparse", "index_forms:dense"):
+        if f not in rep.flags:
+            fails.append("coverage flag missing: " + f)
+    if rep.counters.get("index_forms_ok", 0) and rep.counters.get("index_forms_oob_reported", 0) == 0:
+        fails.append("never observed: index_forms_oob_reported")
+    if rep.counters.get("string_limit_probed", 0) != 8:
+        fails.append("32-character strings: expected 8 attributes probed, got %d" % rep.counters.get("string_limit_probed", 0))
+    if rep.counters.get("defaults_forms_ok", 0) < 1000:
+        fails.append("fewer than 1000 call forms behaved as documented")
+    return fails
+
+
+# ------------------------------------------------------------------------------------------------
 def run_task(task, rep: Report):
     import mouette  # noqa: F401  (binds the repository under test)
+    if task.get("kind") == "signatures":
+        _check_signatures(rep)
+        rep.count("defaults_tasks")
+        return
+    if task.get("kind") == "defaults":
+        _defaults_task(task, rep)
+        rep.count("defaults_tasks")
+        return
     r = Run(task, rep)
     states, transitions = r.explore()
     rep.count("states:" + task["container"], states)
@@ -930,7 +1513,11 @@ def run_task(task, rep: Report):
 
 def finish(tier, rep: Report):
     fails = []
-    want_cfg = len(tasks(tier))
+    all_tasks = tasks(tier)
+    want_dflt = sum(1 for t in all_tasks if t.get("kind") in ("defaults", "signatures"))
+    want_cfg = len(all_tasks) - want_dflt
+    if rep.counters.get("defaults_tasks", 0) == want_dflt:      # (an --only run skips the guards of what it left out)
+        fails += _defaults_guards(rep)
     ran = rep.counters.get("configs", 0)
     if ran < 80:
         return fails                                     # --only run: the guards below are about the full sweep
